@@ -258,6 +258,45 @@ def corr(ctx):
                 alt = np.abs(der - first).max() / scale if first.shape == der.shape else np.inf
                 ctx.mismatch(f"{dname}[..., d] is not d_d {bname} (relative deviation {dev:.2e}; with the derivative index "
                              f"FIRST the deviation is {alt:.2e})", dict(case, formula_value=der, finite_difference=fd))
+    with quiet():
+        kp_folding(ctx, rs)
+
+
+def kp_folding(ctx, rs):
+    """SystemKP: every wrapper (Ham, derHam, der2Ham, der3Ham; analytic or finite-difference) must fold the reduced
+       k-vector into the box [-1/2, 1/2): value(k + G) = value(k) for integer G, and the analytic ones must equal the
+       user function at the folded point - for every subset of supplied derivatives and both k conventions"""
+    tol_depth = [1e-9, 1e-6, 1e-4, 2e-2]        # relative; depth = number of nested finite-difference levels
+    for subset in KP_SUBSETS:
+        for cart in (True, False):
+            s, par, fun = kp_model(rs, nband=int(rs.choice([1, 2])), subset=subset, cartesian=cart)
+            n_analytic = dict(none=0, d1=1, d1d2=2, d1d2d3=3)[subset]
+            recip = s.recip_lattice
+            for it in range(ctx.n(2, 6)):
+                k = rs.uniform(-0.49, 0.49, 3)
+                G = rs.randint(-2, 3, 3)
+                if not G.any():
+                    G[int(rs.randint(3))] = 1
+                for order, name in enumerate(("Ham", "derHam", "der2Ham", "der3Ham")):
+                    f = getattr(s, name)
+                    depth = max(0, order - n_analytic)
+                    case = dict(wrapper=name, subset=subset, cartesian=cart, k=k.tolist(), G=G.tolist(), model=par)
+                    try:
+                        v0, v1 = np.array(f(k)), np.array(f(k + G))
+                    except Exception as e:  # noqa
+                        ctx.mismatch(f"SystemKP.{name} raised {type(e).__name__}: {str(e)[:150]}", case)
+                        continue
+                    ref = np.array(fun[order](k @ recip))
+                    scale = max(np.abs(ref).max(), 1e-12)
+                    ctx.case(signature=("fold", name, subset, cart, tuple(k), tuple(G)), nontrivial=True)
+                    ctx.count(f"corr.kp_fold.{name}.{'analytic' if depth == 0 else 'fd%d' % depth}")
+                    d_fold = np.abs(v1 - v0).max() / scale
+                    d_ref = np.abs(v0 - ref).max() / scale
+                    d_ref1 = np.abs(v1 - ref).max() / scale
+                    if d_fold > tol_depth[depth] or d_ref > tol_depth[depth] or d_ref1 > tol_depth[depth]:
+                        ctx.mismatch(f"SystemKP.{name} (subset '{subset}', {'cartesian' if cart else 'reduced'} k): value at k+G "
+                                     f"differs from the value at k by {d_fold:.2e}; vs the exact derivative at the folded k: "
+                                     f"{d_ref:.2e} (k), {d_ref1:.2e} (k+G); tolerance {tol_depth[depth]:.0e}", case)
 
 
 # ---------------------------------------------------------------------------------------------
@@ -313,53 +352,90 @@ def _tb_model(rs, kind):
     return s, par
 
 
-def kp_model(rs):
-    """two-band k.p model with a closed Fermi surface well inside the box (so that nothing crosses the box boundary)"""
+KP_SUBSETS = ("none", "d1", "d1d2", "d1d2d3")     # which analytic derivatives are handed to SystemKP
+
+
+def kp_poly(rs, nband):
+    """non-parabolic polynomial k.p Hamiltonian H(k) = sum_t M_t * k^alpha_t (k cartesian) with quartic confinement,
+       cubic / mixed terms that break inversion and all mirror symmetries and, for two bands, a gapped d(k).sigma part.
+       returns (terms, parameters); terms = list of (matrix, exponent triple)"""
+    sig = [np.array(m, dtype=complex) for m in ([[0, 1], [1, 0]], [[0, -1j], [1j, 0]], [[1, 0], [0, -1]])]
+    eye = np.eye(nband, dtype=complex)
+    e = np.eye(3, dtype=int)
+    A = float(rs.uniform(5.0, 7.0))
+    B = float(rs.uniform(3.0, 5.0))
+    tilt = rs.uniform(-0.6, 0.6, 3)
+    cub = rs.uniform(-1.2, 1.2, 3)
+    mix = rs.uniform(-0.8, 0.8, 3)
+    terms = []
+    for a in range(3):
+        terms += [(A * eye, tuple(2 * e[a])), (B * eye, tuple(4 * e[a])), (tilt[a] * eye, tuple(e[a])),
+                  (cub[a] * eye, tuple(3 * e[a])), (mix[a] * eye, tuple(e[a] + e[(a + 1) % 3]))]
+    par = dict(A=A, B=B, tilt=tilt.tolist(), cubic=cub.tolist(), mixed=mix.tolist(), nband=nband)
+    if nband == 2:
+        mass = np.array([0.3, -0.2, 1.0]) * float(rs.uniform(1.3, 1.8))     # gap: no Weyl node
+        lam = rs.uniform(0.6, 1.2, 3) * rs.choice([-1, 1], 3)
+        wv = rs.uniform(-0.8, 0.8, (3, 3))
+        q3 = rs.uniform(-0.6, 0.6, 3)
+        for sI in range(3):
+            terms += [(mass[sI] * sig[sI], (0, 0, 0)), (lam[sI] * sig[sI], tuple(e[sI])), (q3[sI] * sig[sI], tuple(3 * e[sI]))]
+            terms += [(wv[sI, a] * sig[sI], tuple(2 * e[a])) for a in range(3)]
+        par.update(mass=mass.tolist(), lam=lam.tolist(), w=wv.tolist(), q3=q3.tolist())
+    return terms, par
+
+
+def poly_derivative(terms, order):
+    """analytic cartesian derivative of the polynomial of the given order: function k -> array (nb, nb, 3, ..)"""
+    nb = terms[0][0].shape[0]
+    contrib = []                      # (index tuple, matrix * combinatorial factor, remaining exponents)
+    for M, al in terms:
+        for idx in np.ndindex(*((3,) * order)):
+            c, ex = 1.0, list(al)
+            for a in idx:
+                c *= ex[a]
+                ex[a] -= 1
+                if c == 0:
+                    break
+            if c != 0:
+                contrib.append(((slice(None), slice(None)) + idx, M * c, tuple(ex)))
+
+    def f(k):
+        k = np.asarray(k, dtype=float)
+        pw = [[1.0, k[a], k[a] ** 2, k[a] ** 3, k[a] ** 4] for a in range(3)]
+        out = np.zeros((nb, nb) + (3,) * order, dtype=complex)
+        for sl, M, ex in contrib:
+            out[sl] += M * (pw[0][ex[0]] * pw[1][ex[1]] * pw[2][ex[2]])
+        return out
+    return f
+
+
+def kp_model(rs, nband=2, subset="d1d2d3", cartesian=True, kmax=1.0):
+    """k.p system with a closed Fermi surface well inside the box; `subset` selects which analytic derivatives are
+       supplied (the others are computed by SystemKP with finite differences), `cartesian` the k convention of the
+       user functions"""
     wb = _c08._wb()
-    A = float(rs.uniform(9.0, 11.0))
-    lam = rs.uniform(0.6, 1.2, 3) * rs.choice([-1, 1], 3)
-    tilt = rs.uniform(-0.5, 0.5, 3)
-    wv = rs.uniform(-0.9, 0.9, (3, 3))        # quadratic coupling to sigma: breaks the remaining symmetries
-    sig = np.array([[[0, 1], [1, 0]], [[0, -1j], [1j, 0]], [[1, 0], [0, -1]]], dtype=complex)
-    eye = np.eye(2, dtype=complex)
-
-    mass = np.array([0.3, -0.2, 1.0]) * float(rs.uniform(1.3, 1.8))    # gap: no Weyl node, smooth Berry curvature
-
-    def dvec(k):
-        k = np.asarray(k, dtype=float)
-        return mass + lam * k + wv @ (k * k)
-
-    def ham(k):
-        k = np.asarray(k, dtype=float)
-        return (A * k @ k + tilt @ k) * eye + np.einsum("s,sij->ij", dvec(k), sig)
-
-    def dham(k):
-        k = np.asarray(k, dtype=float)
-        out = np.zeros((2, 2, 3), dtype=complex)
-        for a in range(3):
-            dd = np.zeros(3)
-            dd[a] += lam[a]
-            dd += wv[:, a] * 2 * k[a]
-            out[:, :, a] = (2 * A * k[a] + tilt[a]) * eye + np.einsum("s,sij->ij", dd, sig)
-        return out
-
-    def d2ham(k):
-        out = np.zeros((2, 2, 3, 3), dtype=complex)
-        for a in range(3):
-            out[:, :, a, a] = 2 * A * eye + np.einsum("s,sij->ij", 2 * wv[:, a], sig)
-        return out
-
-    def d3ham(k):
-        return np.zeros((2, 2, 3, 3, 3), dtype=complex)
-
+    terms, par = kp_poly(rs, nband)
+    fun = [poly_derivative(terms, o) for o in range(4)]
+    recip = np.eye(3) * 2 * kmax
+    user = fun if cartesian else [(lambda k, f=f: f(np.asarray(k, dtype=float) @ recip)) for f in fun]
+    kw = dict(Ham=user[0], kmax=kmax, k_vector_cartesian=cartesian)
+    if subset in ("d1", "d1d2", "d1d2d3"):
+        kw["derHam"] = user[1]
+    if subset in ("d1d2", "d1d2d3"):
+        kw["der2Ham"] = user[2]
+    if subset == "d1d2d3":
+        kw["der3Ham"] = user[3]
     with quiet():
-        s = wb.system.SystemKP(Ham=ham, derHam=dham, der2Ham=d2ham, der3Ham=d3ham, kmax=1.0)
+        s = wb.system.SystemKP(**kw)
     # lowest band energy on the faces of the box: Fermi levels must stay well below it (no occupied state may touch
     # the boundary of the box, otherwise the integration by parts has boundary terms)
-    g = np.linspace(-1, 1, 9)
-    eb = min(np.linalg.eigvalsh(ham(np.roll(np.array([sg, x, y]), ax)))[0]
+    g = np.linspace(-kmax, kmax, 9)
+    eb = min(np.linalg.eigvalsh(fun[0](np.roll(np.array([sg * kmax, x, y]), ax)))[0]
              for ax in range(3) for sg in (-1.0, 1.0) for x in g for y in g)
-    return s, dict(E_boundary_min=float(eb), kind="kp", A=A, lam=lam.tolist(), tilt=tilt.tolist(), w=wv.tolist(), mass=mass.tolist())
+    gi = np.linspace(-kmax, kmax, 13)
+    emin = min(np.linalg.eigvalsh(fun[0](np.array([x, y, z])))[0] for x in gi for y in gi for z in gi)
+    par.update(E_boundary_min=float(eb), E_min=float(emin), kind="kp", subset=subset, cartesian=bool(cartesian), kmax=kmax)
+    return s, par, fun
 
 
 def run_pairs(ctx, s, par, names, ef, kT, NK, NKFFT):
@@ -376,31 +452,100 @@ def run_pairs(ctx, s, par, names, ef, kT, NK, NKFFT):
     return {n: np.array(res.results[n].dataSmooth)[sel] for n in names}, ef[sel]
 
 
-def compare(ctx, A, B, a, b, case, tol):
+def deviation(A, B):
     nA, nB = np.linalg.norm(A), np.linalg.norm(B)
     n = max(nA, nB)
-    if A.shape != B.shape or A.shape[0] < 8 or not n > 0:
-        ctx.fail(f"{a} / {b}: nothing to compare (shapes {A.shape} / {B.shape}, norms {nA:.2e} / {nB:.2e}): the oracle "
-                 f"would be vacuous", case)
-        return 0.0
-    dev = np.linalg.norm(A - B) / n if n > 0 else 0.0
-    asym = 0.0
-    if A.ndim == 3:
-        asym = np.linalg.norm(A - A.swapaxes(1, 2)) / max(nA, 1e-300)
-    ctx.case(signature=(a, b, repr(sorted(case["model"].items())), case["NK"]), nontrivial=(n > 0 and (A.ndim != 3 or asym > 0.05)))
-    ctx.count(f"oracle.{a.replace('_FermiSea', '')}.{case['model']['kind']}")
-    if A.ndim == 3:
-        ctx.count("oracle.rank2.asymmetric" if asym > 0.05 else "oracle.rank2.nearly_symmetric")
-    if dev > tol:
-        hint = ""
-        if np.linalg.norm(A + B) / n < tol:
-            hint = " (the two results are opposite in sign)"
-        elif A.ndim == 3 and np.linalg.norm(A - B.swapaxes(1, 2)) / n < tol:
-            hint = " (they agree after swapping the two cartesian axes)"
-        ctx.fail(f"{a} and {b} disagree: |sea - surf| / max(|sea|,|surf|) = {dev:.3f} > {tol} on a {case['NK']}^3 grid, "
-                 f"kT = {case['kT']:.3f} eV ({case['kT_over_dE']:.1f} dE){hint}", dict(case, norm_sea=nA, norm_surf=nB,
-                                                                              sea=A[len(A) // 2], surf=B[len(B) // 2]))
-    return dev
+    return (np.linalg.norm(A - B) / n if n > 0 else 0.0), nA, nB
+
+
+def hint_for(A, B, tol):
+    n = max(np.linalg.norm(A), np.linalg.norm(B))
+    if np.linalg.norm(A + B) / n < tol:
+        return " (the two results are opposite in sign)"
+    if A.ndim == 3 and np.linalg.norm(A - B.swapaxes(1, 2)) / n < tol:
+        return " (they agree after swapping the two cartesian axes)"
+    return ""
+
+
+def refine(NK):
+    return NK + 4
+
+
+def tol_for(pair, NK):
+    if "Fermider2" in pair[1]:        # f'' needs a finer k-grid than f and f' (oracle-only extra pair)
+        return 0.15 if NK < 20 else 0.10
+    if "NLDrude" in pair[0]:
+        return 0.08 if NK < 20 else 0.05
+    return 0.04 if NK < 20 else 0.03
+
+
+def check_model(ctx, s, par, pairs, ef, kT, NK, nkfft, keep_fn, devs):
+    """run the paired calculators on one model; a pair that disagrees beyond the tolerance is re-run on refined grids:
+       discretisation error shrinks with the grid (the pair is accepted when it falls below the tolerance or keeps
+       shrinking by > 30 % per refinement), a wrong sign / axis order / factor / derivative does not"""
+    dE = ef[1] - ef[0]
+    case = dict(model=par, NK=NK, kT=kT, kT_over_dE=kT / dE, Efermi=[float(ef[0]), float(ef[-1]), len(ef)])
+    names = sorted({n for p in pairs for n in p})
+    try:
+        data, efsel = run_pairs(ctx, s, par, names, ef, kT, NK, nkfft(NK))
+    except Exception as e:  # noqa
+        ctx.fail(f"run() of the paired calculators raised {type(e).__name__}: {str(e)[:300]}", case)
+        return
+    keep = keep_fn(efsel)
+    data = {n: v[keep] for n, v in data.items()}
+    pending = []
+    for a, b in pairs:
+        A, B = data[a], data[b]
+        dev, nA, nB = deviation(A, B)
+        if A.shape != B.shape or A.shape[0] < 8 or not max(nA, nB) > 0:
+            ctx.fail(f"{a} / {b}: nothing to compare (shapes {A.shape} / {B.shape}, norms {nA:.2e} / {nB:.2e}): the oracle "
+                     f"would be vacuous", case)
+            continue
+        asym = np.linalg.norm(A - A.swapaxes(1, 2)) / max(nA, 1e-300) if A.ndim == 3 else 0.0
+        ctx.case(signature=(a, b, repr(sorted((k, repr(v)) for k, v in par.items())), NK),
+                 nontrivial=(A.ndim != 3 or asym > 0.05))
+        ctx.count(f"oracle.{a.replace('_FermiSea', '')}.{par['kind']}")
+        if A.ndim == 3:
+            ctx.count("oracle.rank2.asymmetric" if asym > 0.05 else "oracle.rank2.nearly_symmetric")
+        devs.append((a, b, NK, dev, par["kind"]))
+        if dev > tol_for((a, b), NK):
+            pending.append((a, b, [(NK, dev)], A, B))
+    # convergence-based verdict for the pairs above the tolerance
+    level = NK
+    while pending and level < 28:
+        level = refine(level)
+        pnames = sorted({n for p in pending for n in p[:2]})
+        ctx.count("oracle.refinements")
+        try:
+            d2, ef2 = run_pairs(ctx, s, par, pnames, ef, kT, level, nkfft(level))
+        except Exception as e:  # noqa
+            ctx.fail(f"run() on the refined grid raised {type(e).__name__}: {str(e)[:300]}", case)
+            return
+        k2 = keep_fn(ef2)
+        nxt = []
+        for a, b, hist, A0, B0 in pending:
+            A, B = d2[a][k2], d2[b][k2]
+            dev, nA, nB = deviation(A, B)
+            hist = hist + [(level, dev)]
+            tol = tol_for((a, b), level)
+            if dev <= tol:
+                ctx.note(f"{a}/{b} ({par['kind']}): above tolerance on the coarse grid, converged on refinement: "
+                         + ", ".join(f"{n}^3: {d:.3f}" for n, d in hist))
+                continue
+            if dev < 0.7 * hist[-2][1] and level < 28:
+                nxt.append((a, b, hist, A, B))
+                continue
+            if dev < 0.7 * hist[-2][1] and dev < 0.5 * hist[0][1]:
+                ctx.note(f"{a}/{b} ({par['kind']}): still {dev:.3f} on the finest grid tried but shrinking steadily: "
+                         + ", ".join(f"{n}^3: {d:.3f}" for n, d in hist))
+                continue
+            ctx.fail(f"{a} and {b} disagree and the disagreement does not converge away: |sea - surf| / max(|sea|,|surf|) = "
+                     + ", ".join(f"{d:.3f} on {n}^3" for n, d in hist)
+                     + f" (tolerance {tol}), kT = {kT:.3f} eV ({kT / dE:.0f} dE){hint_for(A, B, tol)}",
+                     dict(case, history=hist, norm_sea=nA, norm_surf=nB, sea=A[len(A) // 2], surf=B[len(B) // 2]))
+        pending = nxt
+    for a, b, hist, A, B in pending:      # grid limit reached while still converging
+        ctx.note(f"{a}/{b} ({par['kind']}): {hist[-1][1]:.3f} at the grid limit, shrinking: " + ", ".join(f"{n}^3: {d:.3f}" for n, d in hist))
 
 
 def oracle(ctx, scale):
@@ -416,57 +561,48 @@ def oracle(ctx, scale):
     if not thorough:
         pairs = [p for p in pairs if not p[0].startswith("Hall_classic")]      # rank-4 formula: thorough tier only
     devs = []
-    # (model kind, NK).  Tolerances are convergence tolerances.  The code smooths T = 0 data that were binned on the E_F
-    # grid, so the effective occupation is a staircase of step dE: with dE = kT/6 the k-sum of the parity-odd,
-    # cancellation-prone nonlinear Drude tensor is 9-17 % off at 12^3, with dE = kT/24 it is 2 % (rank-2 pairs <= 2 %).
-    # Hence dE = kT/24 here.  A wrong sign gives 2.0, a wrong axis order O(1).
-    plan = [("chiral", ctx.n(12, 16), 0), ("kp", ctx.n(12, 16), 0)]
+    # Tolerances are convergence tolerances.  The code smooths T = 0 data that were binned on the E_F grid, so the
+    # effective occupation is a staircase of step dE: with dE = kT/6 the k-sum of the parity-odd, cancellation-prone
+    # nonlinear Drude tensor is 9-17 % off at 12^3, with dE = kT/24 it is 2 % (rank-2 pairs <= 2 %).  Hence dE = kT/24.
+    # A wrong sign gives 2.0, a wrong axis order O(1); see check_model for the convergence-based verdict.
+    tb_plan = [("chiral", ctx.n(12, 16))]
     if thorough:
-        plan += [("haldane", 16, 0), ("chiral", 24 if scale == 1 else 16, 0), ("kp", 20, 0)]
-
-    def tol_for(pair, NK):
-        if "Fermider2" in pair[1]:        # f'' needs a finer k-grid than f and f' (oracle-only extra pair)
-            return 0.15 if NK < 20 else 0.10
-        if "NLDrude" in pair[0]:
-            return 0.08 if NK < 20 else 0.05
-        return 0.04 if NK < 20 else 0.03
-
-    for kind, NK, ktfac in plan:
-        if kind == "kp":
-            s, par = kp_model(rs)
-            ef = np.arange(-3.5, 7.0, 0.025)
-            kT = 0.6 if NK < 16 else 0.45
-            # the nonlinear Drude tensor of this model (der3Ham = 0) is a small remainder of large cancelling terms: it is
-            # compared on the tight-binding models only
-            names_pairs = [p for p in pairs if not p[0].startswith(("GME_spin", "Hall_classic", "NLDrude"))]
-        else:
-            s, par = tb_model(rs, kind)
-            ef = np.arange(-12.0, 13.0, 0.05) if kind == "chiral" else np.arange(-10.0, 10.0, 0.05)
-            kT = 1.2 if kind == "chiral" else 1.0
-            names_pairs = list(pairs)
-        allp = names_pairs + (extra if kind != "kp" else [])
-        names = sorted({n for p in allp for n in p})
-        case = dict(model=par, NK=NK, kT=kT, kT_over_dE=kT / (ef[1] - ef[0]), Efermi=[float(ef[0]), float(ef[-1]), len(ef)])
-        try:
-            data, efsel = run_pairs(ctx, s, par, names, ef, kT, NK, NK if kind == "kp" else (NK // 2 if NK % 2 == 0 else NK))
-        except Exception as e:  # noqa
-            ctx.fail(f"run() of the paired calculators raised {type(e).__name__}: {str(e)[:300]}", case)
-            continue
-        if kind == "kp":
-            # only Fermi levels for which the occupied region stays inside the box: f(E_boundary) < exp(-8)
-            keep = efsel < par["E_boundary_min"] - 8 * kT
-            data = {n: v[keep] for n, v in data.items()}
-        for a, b in allp:
-            devs.append((a, NK, compare(ctx, data[a], data[b], a, b, case, tol_for((a, b), NK))))
+        tb_plan += [("haldane", 16), ("chiral", 20 if scale == 1 else 16)]
+    for kind, NK in tb_plan:
+        s, par = tb_model(rs, kind)
+        ef = np.arange(-12.0, 13.0, 0.05) if kind == "chiral" else np.arange(-10.0, 10.0, 0.05)
+        kT = 1.2 if kind == "chiral" else 1.0
+        check_model(ctx, s, par, list(pairs) + extra, ef, kT, NK, lambda n: n // 2 if n % 2 == 0 else n,
+                    lambda e: np.ones(len(e), dtype=bool), devs)
+    # k.p models: non-parabolic, analytic derivatives supplied in every subset, both k conventions.
+    # (spin pairs do not exist for k.p; Hall_classic is compared on the tight-binding models; the f'' form needs
+    #  dE_k <~ 0.7 kT, i.e. > 40^3 points for a box-confined k.p band, and is compared on the tight-binding models only)
+    kp_pairs = [p for p in pairs if not p[0].startswith(("GME_spin", "Hall_classic"))]
+    kp_rank2 = [p for p in kp_pairs if "NLDrude" not in p[0]]
+    if thorough:
+        kp_plan = [(2, sub, cart, 12, kp_rank2) for sub in KP_SUBSETS for cart in (True, False)]
+        kp_plan += [(2, "d1d2d3", bool(rs.randint(2)), 20, kp_pairs), (1, "d1d2", bool(rs.randint(2)), 20, kp_pairs)]
+    else:
+        kp_plan = [(2, str(rs.choice(["d1d2", "d1d2d3"])), bool(rs.randint(2)), 12, kp_rank2)]
+    for nband, subset, cart, NK, plist in kp_plan:
+        s, par, _ = kp_model(rs, nband=nband, subset=subset, cartesian=cart)
+        kT = 0.6
+        ef = np.arange(par["E_min"] - 6 * kT - 0.3, par["E_boundary_min"], 0.025)
+        if nband == 1:      # no Berry curvature / orbital moment in a one-band model
+            plist = [p for p in plist if p[0].startswith(("Ohmic", "NLDrude"))]
+        # only Fermi levels for which the occupied region stays inside the box: f(E_boundary) < exp(-8)
+        check_model(ctx, s, par, plist, ef, kT, NK, lambda n: n,
+                    lambda e, eb=par["E_boundary_min"], kT=kT: e < eb - 8 * kT, devs)
+        ctx.count(f"oracle.kp.subset={subset}.{'cartesian' if cart else 'reduced'}.nband={nband}")
     if devs:
-        r2 = [d for d in devs if "NLDrude" not in d[0]]
-        r3 = [d for d in devs if "NLDrude" in d[0]]
-        for lab, dd in (("rank-2 pairs", r2), ("nonlinear Drude", r3)):
+        for lab, dd in (("rank-2 pairs", [d for d in devs if "NLDrude" not in d[0]]),
+                        ("nonlinear Drude sea/surface", [d for d in devs if "NLDrude" in d[0] and "Fermider2" not in d[1]]),
+                        ("nonlinear Drude sea/f''", [d for d in devs if "Fermider2" in d[1]])):
             if dd:
-                w = max(dd, key=lambda x: x[2])
-                ctx.note(f"largest sea/surface discrepancy, {lab}: {w[2]:.4f} ({w[0]}, {w[1]}^3); a sign error gives 2.0, "
-                         f"an axis error O(1)")
-    ctx.sample(dict(pairs=pairs + extra, plan=plan))
+                w = max(dd, key=lambda x: x[3])
+                ctx.note(f"largest first-pass discrepancy, {lab}: {w[3]:.4f} ({w[0]}, {w[4]}, {w[2]}^3); a sign error "
+                         f"gives 2.0, an axis error O(1)")
+    ctx.sample(dict(pairs=pairs + extra, tb_plan=tb_plan, kp_plan=[p[:4] for p in kp_plan]))
 
 
 def replay(ctx, case):
